@@ -7,10 +7,11 @@ DRIVER_MODULE = "Driver.Tensor"
 PROPS = "RlibModel.Props.C19"
 PROFILES = ["release"]
 SHRINK_SEP = None
-RULE = ("cases: every shape of rank 0..4 with extents 1..5 (rank 4: extents <= 4 in the quick tier): every valid index (get_index, t[idx], "
-        "t[idx]=v and which storage cells changed), every index out of range in exactly one dimension with the other coordinates ranging over all "
-        "valid values (out-of-range values d, d+1, [2d+1, 2^40, usize::MAX]; about half of them keep the flattened offset inside the storage - the "
-        "aliasing case), iter/iter_mut/into_iter order after writing code(idx) through IndexMut; every shape with extents 0..5: from_vec/from_slice "
+RULE = ("cases: every shape of rank 0..4 with extents 1..5 (rank 4: extents <= 4 in the quick tier): every valid index and every index out of range in exactly one dimension with the other coordinates "
+        "ranging over all valid values: get_index, and - independently of each other, on tensors built by from_vec / from_slice / new / read - t[idx] and "
+        "t[idx]=v followed by a comparison of every cell with its old value (an aliasing write shows as a foreign cell); out-of-range values: quick d, d+1 "
+        "and a sample, thorough every value whose flattened offset is still inside the storage (the aliasing case, 1.6M indices) plus 2d+1, 2^40, usize::MAX; "
+        "constructors print shape and contents; views and S say only `panic` (the raw result keeps the coarse class reject/overflow); iter/iter_mut/into_iter order after writing code(idx) through IndexMut; every shape with extents 0..5: from_vec/from_slice "
         "with length n, n+1, n-1, 0, new, read, plus 17 shapes with extents up to usize::MAX whose product does not fit usize (must be rejected: "
         "panic:overflow in the checked build) or fits but is far from the length; == over all pairs of equal-rank shapes with equal element count (same data), same shape with one "
         "element changed, different counts; Writable bytes and Writer -> bytes -> chunked Reader -> Tensor::read round trip for i64 (incl. MIN/MAX) "
